@@ -110,7 +110,8 @@ func ruleC14(c *Ctx) {
 			}
 			cls := findCall(t, "(*compress/flate.Writer).Close")
 			docStr := "(*etree.Document).WriteToString(" + docP + ")#0"
-			okW := len(wrs) == 1 && wrs[0].Args[0].Key() == fw.Key() && (ap(wrs[0].Args[1]) == "[]byte("+docStr+")" || ap(wrs[0].Args[1]) == docStr)
+			docBytes := "(*etree.Document).WriteToBytes(" + docP + ")#0" // WriteToString is string(WriteToBytes)
+			okW := len(wrs) == 1 && wrs[0].Args[0].Key() == fw.Key() && (ap(wrs[0].Args[1]) == "[]byte("+docStr+")" || ap(wrs[0].Args[1]) == docStr || ap(wrs[0].Args[1]) == docBytes)
 			c.check(okW && bufFresh, "C14-R5", fname, "exactly the document is deflated into a fresh buffer ["+label+"]", pos, "Write([]byte(doc))", "deflate input is not exactly the serialised document")
 			okC := false
 			if len(cls) == 1 && cls[0].Args[0].Key() == fw.Key() {
